@@ -84,3 +84,8 @@ def duplicate_free(l):
     """concrete reading of the spec predicate duplicate_free (identity for objects, equality for scalars)"""
     keys = [id(x) if hasattr(x, '__dict__') else x for x in l]
     return len(set(keys)) == len(keys)
+
+
+def now(v):
+    """concrete reading of now(v): objects have one (current) state"""
+    return v
